@@ -39,7 +39,12 @@ RULE = (
     "initial container); states deduplicated on (dict model incl. key order, laziness flags and cached row counts read "
     "from the real object, origin of binary columns); every transition is executed on a fresh replay of the history, "
     "its result compared with the dict model, followed by a complete observation (len, iteration, containment for all "
-    "keys, deep content, equality laws); non-trivial = the history contains a mutating operation or the re-parse step."
+    "keys, deep content, equality laws); non-trivial = the history contains a mutating operation or the re-parse step. "
+    "content laws (once per distinct content in the 'empty' and 'two_parsed' shards of every subject): '==' / '!=' of "
+    "two operands parsed from files must equal dict equality of the contents in all four {still serialised, fully "
+    "accessed}^2 parse states, for an operand parsed from the same bytes, from the file written with every key inserted "
+    "in the opposite order at every level, from two perturbed contents, and (text flavour) from five hand-written "
+    "layouts of the same content (wide padding, double quotes, extra comment lines, one-row loop_, blank lines)."
 )
 ASSUMPTIONS = [
     "the strings '.' and '?' are generated only in the mask role (biotite infers the mask from the bare tokens)",
@@ -93,6 +98,8 @@ def bounds(tier):
         "container_keys": KEYS + [ABSENT_KEY],
         "container_subjects": [f + "." + lv for f in FLAVOURS for lv in LEVELS],
         "container_inits": sorted(INITS),
+        "content_law_operands": ["same_text", "reversed_order", "perturbed x2"] + ["foreign_" + v for v in FOREIGN_VARIANTS],
+        "content_law_parse_states": ["%s_%s" % c for c in PARSE_COMBOS],
     }
 
 
